@@ -214,17 +214,25 @@ def rule_executables(chk, rid):
 
 
 def ladder(fn):
-    """rungs of the isinstance ladder on args[0] in a parse_meta method: [(type name, converts-with, raises?)]"""
+    """rungs of the isinstance ladder on args[0] in a parse_meta method: [(type name, body)]; the last rung is "<else>".
+    An `else:` may be spelled out or implied by a rung that ends in raise/return followed by the remaining statements of its block."""
     out = []
+
     def walk(stmts):
-        for s in stmts:
+        for i, s in enumerate(stmts):
             if isinstance(s, ast.If):
                 t = U(s.test)
                 if t.startswith("isinstance(args[0], "):
                     out.append((t[len("isinstance(args[0], "):-1], s.body))
-                    walk(s.orelse) if len(s.orelse) == 1 and isinstance(s.orelse[0], ast.If) else out.append(("<else>", s.orelse)) if s.orelse else None
-                else:
-                    walk(s.body)
+                    if s.orelse:
+                        if isinstance(s.orelse[0], ast.If) and U(s.orelse[0].test).startswith("isinstance(args[0], "):
+                            walk(s.orelse)
+                        else:
+                            out.append(("<else>", s.orelse))
+                    elif s.body and isinstance(s.body[-1], (ast.Raise, ast.Return)) and stmts[i + 1:]:
+                        out.append(("<else>", stmts[i + 1:]))
+                    return
+                walk(s.body)
     walk(fn.body)
     return out
 
